@@ -15,7 +15,7 @@
 (* 2. Exact anchors of the gnomonic deprojection and the native->celestial        *)
 (*    rotation on the great-circle lattice (integer degrees, classical angles).   *)
 (* 3. Acceptance clauses for recorded observations of the real code (Failing...).    *)
-(* 4. The call-history machine: every result equals F(call), whatever preceded.   *)
+(* 4. The call-history machine: every result equals F(call, k), whatever preceded. *)
 EXTENDS VU
 
 WZero == <<0, 1>>
@@ -182,19 +182,24 @@ FailingScalarArray(c, o) ==
     ELSE IF \A k \in DOMAIN o.rel : o.rel[k] \in {"same", "close"} THEN {} ELSE {"scalar_array_differ"}
 
 \* ---------------------------------------------------------------------------------
-\* 4. the call-history machine (property level).  A call is one of CallNames with fixed arguments;
-\*    F(call) is "what a fresh object returns for it".  The property: on any object, after any
-\*    prefix, the call returns F(call).  The harness records per step how the result relates to the
-\*    fresh object's: "same" (bit-identical, or the same exception class), "close" (within the
-\*    tolerance the statement grants that call), "diff".
+\* 4. the call-history machine (property level).  A call is one of CallNames; its arguments are fixed
+\*    by its position in the sequence (the harness uses a different pixel / sky target at each
+\*    position so that a buffer left behind by an earlier call is observable).  F(call, k) is "what
+\*    a fresh object returns for that call with the arguments of position k".  The property
+\*    ("results ... do not depend on what other conversions the same object performed earlier"): on
+\*    any object, after any prefix, the call returns F(call, k) - the same value, bit for bit (both
+\*    are outputs of the same deterministic code on the same arguments; two fresh objects are checked
+\*    to agree bit for bit before anything is compared).  The harness records per step how the
+\*    result relates to the fresh object's: "same" (bit-identical, or the same exception class),
+\*    "close" (different bits, within 1e-9 degree / 1e-6 pixel), "diff".
 CallNames == {"i2s_d", "i2s_n", "s2i_dr", "s2i_dp", "s2i_np", "s2i_nr", "jac"}
 \*   i2s_d / i2s_n : image2sky(p, distort=True / False)          jac : get_jacobian(p)
 \*   s2i_dr : sky2image(s, distort=True,  find=True)   (root finder)
 \*   s2i_dp : sky2image(s, distort=True,  find=False)  (fitted inverse polynomial, computed lazily)
 \*   s2i_np : sky2image(s, distort=False, find=False)    s2i_nr : sky2image(s, distort=False, find=True)
-F(call) == <<"F", call>>
-\* a recorded step [call, rel] is allowed iff its result is (observationally) F(call)
-StepAllowed(s) == s.call \in CallNames /\ s.rel \in {"same", "close"}
+F(call, k) == <<"F", call, k>>
+\* a recorded step [call, rel] is allowed iff its result is F(call, k)
+StepAllowed(s) == s.call \in CallNames /\ s.rel = "same"
 FailingHistory(c, o) ==
     IF Len(o.steps) # Len(c.calls) \/ \E k \in DOMAIN c.calls : o.steps[k].call # c.calls[k] THEN {"trace_mismatch"}
     ELSE IF \A k \in DOMAIN o.steps : StepAllowed(o.steps[k]) THEN {} ELSE {"result_depends_on_history"}
